@@ -475,11 +475,12 @@ pub fn build(quick: bool) -> Check {
             Box::new(Pairs { vals: dense, other: Some(few), label: "dense-range-x-few" }),
             Box::new(ZeroCols { counts }),
             Box::new(super::aftermath::Aftermath { prop: "C14" }),
+            Box::new(super::soak::QuietRuns { max_n: if quick { 600 } else { 1300 }, ends_in_completion: true }),
             Box::new(CompletionWalks { depth: 2 }),
             Box::new(CompletionWalks { depth: 3 }),
             Box::new(CompletionWalks { depth: 4 }),
             Box::new(CompletionWalks { depth: if quick { 5 } else { 6 } }),
         ],
-        required: vec!["aftermath_recovered", "completion_walks", "eight_byte_lenenc", "zero_column_sets"],
+        required: vec!["aftermath_recovered", "quiet_runs", "completion_walks", "eight_byte_lenenc", "zero_column_sets"],
     }
 }
